@@ -98,6 +98,15 @@ def sumByCommodity : List Posting → Sums → Option Sums
     | some none => none
     | some (some (k, q)) => sumByCommodity r (KV.set m k (Dec.add (KV.get m k Dec.zero) q))
 
+/-- `sumByCommodity` before fix-zero-quantity-total-cost. -/
+def sumByCommodityPinned : List Posting → Sums → Option Sums
+  | [], m => some m
+  | p :: r, m =>
+    match contributionPinned p with
+    | none => sumByCommodityPinned r m
+    | some none => none
+    | some (some (k, q)) => sumByCommodityPinned r (KV.set m k (Dec.add (KV.get m k Dec.zero) q))
+
 structure Result where
   balanced : Bool
   differences : Sums
@@ -114,6 +123,18 @@ def check (tx : Transaction) : Option Result :=
   let (cnt, idx) := countInferred real 0 (0, -1)
   if cnt > 1 then some ⟨false, [], -1⟩ else
   match sumByCommodity real [] with
+  | none => none
+  | some sums =>
+    if cnt == 1 then some ⟨true, [], idx⟩ else
+    let d := differencesOf sums
+    some ⟨d.isEmpty, d, idx⟩
+
+/-- `CheckBalance` before fix-zero-quantity-total-cost. -/
+def checkPinned (tx : Transaction) : Option Result :=
+  let real := filterReal tx.postings
+  let (cnt, idx) := countInferred real 0 (0, -1)
+  if cnt > 1 then some ⟨false, [], -1⟩ else
+  match sumByCommodityPinned real [] with
   | none => none
   | some sums =>
     if cnt == 1 then some ⟨true, [], idx⟩ else
